@@ -699,8 +699,17 @@ func returnsOf(f *ssa.Function) []retInfo {
 // onlyPhisBefore: every instruction of b before its terminator is a phi (or a debug reference).
 func onlyPhisBefore(b *ssa.BasicBlock) bool {
 	for _, ins := range b.Instrs[:len(b.Instrs)-1] {
-		switch ins.(type) {
-		case *ssa.Phi, *ssa.DebugRef:
+		switch x := ins.(type) {
+		case *ssa.Phi, *ssa.DebugRef, *ssa.RunDefers:
+		case *ssa.Store:
+			// spilling results before deferred calls run
+			if _, ok := x.Addr.(*ssa.Alloc); !ok {
+				return false
+			}
+		case *ssa.UnOp:
+			if _, ok := x.X.(*ssa.Alloc); !ok || x.Op != token.MUL {
+				return false
+			}
 		default:
 			return false
 		}
@@ -788,6 +797,23 @@ func storesToField(alloc ssa.Value, name string) []*ssa.Store {
 // this function; returns the constant Status stored into it.
 func problemStatus(v ssa.Value) (int64, bool) {
 	v = resolveLocalLoad(v)
+	// a merged result (e.g. of an inlined helper): the status of its non-nil definitions, if they agree
+	if ph, ok := v.(*ssa.Phi); ok {
+		var st int64
+		n := 0
+		for _, e := range ph.Edges {
+			if isNilConst(e) || e == ssa.Value(ph) {
+				continue
+			}
+			s1, ok := problemStatus(e)
+			if !ok || (n > 0 && s1 != st) {
+				return 0, false
+			}
+			st = s1
+			n++
+		}
+		return st, n > 0
+	}
 	a, ok := v.(*ssa.Alloc)
 	if !ok {
 		return 0, false
